@@ -1,1 +1,136 @@
-// lemmas/fwd_fixpoint.rs
+// ---------------------------------------------------------------------------
+// lemmas/fwd_fixpoint.rs -- proof-only lemmas of unit `fwd_fixpoint` (all PROVED, nothing assumed).
+//   lemma_ff_partition_permutation   a partition of the node indices, flattened, is a permutation of all nodes
+//   lemma_ff_pre_from_shape          the precondition of the edge transfer follows from "CFG-shaped graph + value has the
+//                                    variant that belongs to its node"
+//   lemma_ff_shape_kept_edge / _merge  ... and that shape invariant is kept by the edge transfers and by merge
+// ---------------------------------------------------------------------------
+
+/// position of the first entry of list `c` in the concatenation
+pub open spec fn ff_off(comps: Seq<Vec<NodeIndex>>, c: int) -> int { ff_concat(comps, c).len() as int }
+
+/// every entry of list c < m sits at position ff_off(c) + j of the concatenation of the first m lists
+pub proof fn lemma_ff_concat_at(comps: Seq<Vec<NodeIndex>>, m: int, c: int, j: int)
+    requires
+        0 <= c < m <= comps.len(),
+        0 <= j < comps[c]@.len(),
+    ensures
+        0 <= ff_off(comps, c) + j < ff_concat(comps, m).len(),
+        ff_concat(comps, m)[ff_off(comps, c) + j] == comps[c]@[j],
+    decreases m
+{
+    if c == m - 1 {
+    } else {
+        lemma_ff_concat_at(comps, m - 1, c, j);
+    }
+}
+
+/// every position of the concatenation of the first m lists is such a position
+pub proof fn lemma_ff_concat_pos(comps: Seq<Vec<NodeIndex>>, m: int, p: int) -> (cj: (int, int))
+    requires
+        0 <= m <= comps.len(),
+        0 <= p < ff_concat(comps, m).len(),
+    ensures
+        0 <= cj.0 < m,
+        0 <= cj.1 < comps[cj.0]@.len(),
+        p == ff_off(comps, cj.0) + cj.1,
+        ff_concat(comps, m)[p] == comps[cj.0]@[cj.1],
+    decreases m
+{
+    if m <= 0 {
+        (0, 0)
+    } else if p >= ff_concat(comps, m - 1).len() {
+        (m - 1, p - ff_concat(comps, m - 1).len())
+    } else {
+        lemma_ff_concat_pos(comps, m - 1, p)
+    }
+}
+
+/// The obligation that `create_*_worklist` owes property C07 (the `requires` of Computation::from_node_priority_list):
+/// strongly connected components partition the node set, so their concatenation lists every node exactly once.
+pub proof fn lemma_ff_partition_permutation(comps: Seq<Vec<NodeIndex>>, n: nat)
+    requires
+        ff_partition(comps, n),
+    ensures
+        ff_is_node_permutation(ff_concat(comps, comps.len() as int), n),
+{
+    let m = comps.len() as int;
+    let s = ff_concat(comps, m);
+    // entries are nodes
+    assert forall |i: int| 0 <= i < s.len() implies (#[trigger] s[i]).i < n by {
+        let cj = lemma_ff_concat_pos(comps, m, i);
+        assert(comps[cj.0]@[cj.1].i < n);
+    }
+    // no node twice
+    assert forall |i: int, j: int| 0 <= i < j < s.len() implies (#[trigger] s[i]).i != (#[trigger] s[j]).i by {
+        let a = lemma_ff_concat_pos(comps, m, i);
+        let b = lemma_ff_concat_pos(comps, m, j);
+        if s[i].i == s[j].i {
+            assert(comps[a.0]@[a.1].i == comps[b.0]@[b.1].i);
+            assert(a.0 == b.0 && a.1 == b.1);
+        }
+    }
+    // every node
+    assert forall |k: int| 0 <= k < n implies #[trigger] ff_takes_value(s, k) by {
+        assert(ff_in_comps(comps, k));
+        let (c, j) = choose |c: int, j: int| 0 <= c < comps.len() && 0 <= j < comps[c]@.len() && (#[trigger] comps[c]@[j]).i == k;
+        lemma_ff_concat_at(comps, m, c, j);
+        assert(s[ff_off(comps, c) + j].i == k);
+    }
+    // hence exactly n entries: the index sequence has no duplicates and its set of entries is 0..n
+    let idx = s.map_values(|x: NodeIndex| x.i as int);
+    assert(idx.no_duplicates());
+    assert(idx.to_set() =~= vstd::set_lib::set_int_range(0, n as int)) by {
+        assert forall |k: int| vstd::set_lib::set_int_range(0, n as int).contains(k) implies idx.to_set().contains(k) by {
+            assert(ff_takes_value(s, k));
+            let j = choose |j: int| 0 <= j < s.len() && (#[trigger] s[j]).i == k;
+            assert(idx[j] == k);
+        }
+        assert forall |k: int| idx.to_set().contains(k) implies vstd::set_lib::set_int_range(0, n as int).contains(k) by {
+            let j = choose |j: int| 0 <= j < idx.len() && idx[j] == k;
+            assert(s[j].i < n);
+        }
+    }
+    idx.unique_seq_to_set();
+    vstd::set_lib::lemma_int_range(0, n as int);
+    assert(s.len() == n);
+}
+
+// ---- the shape invariant ---------------------------------------------------------------------------------------------
+
+/// On a graph whose edges connect node kinds as the CFG builder produces them, a node value that has the variant belonging
+/// to the source node satisfies the precondition of the edge transfer: no `panic!` arm, `unwrap_value`, `get_block`,
+/// `get_sub` or index of `update_edge` can fail.
+pub proof fn lemma_ff_pre_from_shape<'a, V: PartialEq + Eq + Clone>(g: Graph<'a>, nv: NodeValue<V>, e: int)
+    requires
+        0 <= e < g.edge_seq().len(),
+        ff_edge_kinds_ok(g, e),
+        ff_shape(g.node_weight(g.edge_seq()[e].0.i as int), nv),
+    ensures
+        ff_edge_pre(g, nv, e),
+{
+}
+
+/// ... and what the transfer produces has the variant that belongs to the TARGET node of the edge,
+pub proof fn lemma_ff_shape_kept_edge<'a, T: Context<'a>>(c: T, nv: NodeValue<T::Value>, e: int)
+    requires
+        0 <= e < c.graph_spec().edge_seq().len(),
+        ff_edge_kinds_ok(c.graph_spec(), e),
+        ff_shape(c.graph_spec().node_weight(c.graph_spec().edge_seq()[e].0.i as int), nv),
+        ff_update_edge(c, nv, e) is Some,
+    ensures
+        ff_shape(c.graph_spec().node_weight(c.graph_spec().edge_seq()[e].1.i as int), ff_update_edge(c, nv, e)->Some_0),
+{
+}
+
+/// ... and merging two values of the same node keeps the variant: the shape invariant "every node value has the variant of
+/// its node" is inductive over a solver run, so the mixed-variant `panic!` of `merge` is unreachable as well.
+pub proof fn lemma_ff_shape_kept_merge<'a, T: Context<'a>>(c: T, n: Node<'a>, a: NodeValue<T::Value>, b: NodeValue<T::Value>)
+    requires
+        ff_shape(n, a),
+        ff_shape(n, b),
+    ensures
+        (a is Value) == (b is Value),
+        ff_shape(n, ff_merge(c, a, b)),
+{
+}
